@@ -39,3 +39,52 @@ func logAppendCases(thorough bool) {
 		fetchCase(vers[i%3], o, hwm, sub, -1)
 	}
 }
+
+// controlCases: logs of a topic written by a transactional producer: after some batches comes the transaction marker,
+// a control batch of one record.  Expected (layout text): the marker is an empty batch — nothing is delivered from it,
+// the position moves past it.
+func controlCases(thorough bool) {
+	r := rand.New(rand.NewSource(20240918))
+	n := 30
+	if thorough {
+		n = 300
+	}
+	vers := []int{5, 10}
+	for i := 0; i < n; i++ {
+		items, hwm := genLog(r, 2, 1+r.Intn(4), 0)
+		var out []Item
+		shift := int64(0)
+		for _, it := range items {
+			it.Base += shift
+			it.Last += shift
+			for k := range it.Recs {
+				it.Recs[k].Offset += shift
+			}
+			out = append(out, it)
+			if r.Intn(2) == 0 {
+				// the marker takes the next offset
+				shift++
+				m := it.Last + 1
+				abort := int16(r.Intn(2))
+				out = append(out, Item{Format: 2, Control: true, Base: m, Last: m, Recs: []Rec{{
+					Offset: m, TsMs: 1700000000000,
+					Key:   []byte{0, 0, byte(abort >> 8), byte(abort)}, // version 0, type abort(0)/commit(1)
+					Value: []byte{0, 0, 0, 0, 0, byte(1 + r.Intn(9))}, // version 0, coordinator epoch
+				}}})
+			}
+		}
+		hwm += shift
+		if shift == 0 {
+			continue
+		}
+		o := pickOffset(r, out, hwm)
+		if o == hwm {
+			continue
+		}
+		from := 0
+		for from < len(out) && itemLast(out[from]) < o {
+			from++
+		}
+		fetchCase(vers[i%2], o, hwm, out[from:], -1)
+	}
+}
